@@ -9,6 +9,7 @@
 -/
 import PV.Model.SftpClientPut
 import PV.Model.SftpGetLemmas
+import PV.Model.PrefetchSeq
 namespace PV.Props.C29
 open PV PV.SftpClient
 
@@ -199,6 +200,34 @@ theorem failed_stat_or_open_raises (remote : Bytes) (maxReq chunk statCode openC
   · exact ⟨statCode, by simp [hs]⟩
   · have ho : openCode ≠ 0 := by rcases h with h | h; exact absurd h hs; exact h
     exact ⟨openCode, by simp [hs, ho]⟩
+
+/-- **getfo with prefetching returned normally ⇒ local bytes = remote bytes.**  On the concurrent model of C28
+    (reader, prefetch threads, server; any schedule) extended with failing reads (`Act.serveFail c`: the server
+    answers a request with error status `c`; a prefetch answer of that kind is saved and raised by the next
+    `_check_exception`, a synchronous one raises at once): for every program that only prefetches and reads
+    sequentially (what `getfo` does: `prefetch(size, cap)`, then `read(32768)` until a read comes back empty), any
+    cap, any short reads, any failing requests — if no read raised and the last read (of positive size) returned
+    nothing, the concatenation of everything read is exactly the remote file. -/
+theorem getfo_with_prefetch_normal_return_implies_local_equals_remote (file : Bytes) (maxReq : Nat) (hm : 0 < maxReq)
+    (acts : List Prefetch.Act) (hseq : ∀ a ∈ acts, Prefetch.seqAct a)
+    (hnoraise : (Prefetch.run (Prefetch.init file maxReq) acts).raised = [])
+    (pre : List Prefetch.Entry) (e : Prefetch.Entry) (w : Nat)
+    (hout : (Prefetch.run (Prefetch.init file maxReq) acts).out = pre ++ [e])
+    (hw : e.2.1 = some w) (hpos : 0 < w) (hempty : e.2.2 = []) :
+    ((Prefetch.run (Prefetch.init file maxReq) acts).out.map (·.2.2)).flatten = file := by
+  obtain ⟨hi, hs⟩ := Prefetch.run_inv_seq (Prefetch.init_inv file maxReq hm) (Prefetch.init_seq file maxReq) acts hseq
+  have hchain := (hs hnoraise).1
+  have hout' := hi.base.out
+  rw [Prefetch.run_file] at hout'
+  exact Prefetch.sequential_reads_complete hchain hout' hout hw hpos hempty
+
+/-- a failing synchronous read raises; a failing prefetch read is saved and raised by the read that waits for it
+    (concrete schedule: the only chunk's request is failed with code 4, the waiting reader raises 4 and nothing is
+    delivered). -/
+example :
+    let s := Prefetch.run (Prefetch.init [1, 2, 3, 4, 5, 6, 7, 8] 4)
+      [.rOp (.prefetch 4 none), .tCheck 0, .tAlloc 0, .tSend 0, .tReg 0, .rOp (.read (some 4)), .serveFail 4, .rStep, .rStep]
+    s.raised = [(0, 4)] ∧ s.out = [] := by decide
 
 /-- non-vacuity: short reads are re-requested and the result is the whole file; a failing third request raises -/
 example : SftpGet.getfo [0, 1, 2, 3, 4, 5, 6, 7, 8, 9, 10, 11] 4 5 0 0 [.data 2, .data 9, .data 1] 1000
